@@ -187,6 +187,7 @@ def run(ck):
     HANGS[0] = 0
     try:
         explore(ck, q, n_sessions, lines, meta)
+        foreign_records_layer(ck, 16 if q else 160, lines, meta)
     except TooManyHangs:
         ck.count("exploration_stopped_after_hangs")
     finish(ck, lines, meta)
@@ -364,6 +365,53 @@ def explore(ck, q, n_sessions, lines, meta):
                         ck.count("retry_raised:" + type(e).__name__)
         if si < 3:
             ck.sample(dict(inp0, crash_points=len(cuts), truncations=len(lens), stream_bytes=sum(len(d) for _, d in rec.log)))
+
+
+def foreign_records_layer(ck, n_cases, lines, meta):
+    """a session that is handed, after some valid chunks, records of another point format (same id; the extra dimensions differ in one
+    respect, or one list is a strict prefix of the other) and is then closed: whatever the session did with them - refuse, or fail - the
+    file it leaves must read as a prefix of the points that were being stored, never as records re-cut at the wrong length"""
+    import laspy
+    for ci in range(n_cases):
+        minor, fmt = fio.PAIRS[(3 * ci) % len(fio.PAIRS)]
+        kind = ["append", "chunked"][ci % 2]
+        mine, theirs, variant = fio.foreign_extra_dims(ck.rng)
+        if ci % 4 == 3:
+            mine, variant = [], "file_has_none"
+        las = fio.make_las(ck.rng, minor, fmt, 3, mine)
+        size = las.header.point_format.size
+        good = [fio.raw_records(ck.rng, size, ck.rng.choice([1, 2])) for _ in range(ck.rng.choice([0, 1]))]
+        pf = laspy.PointFormat(fmt)
+        for p_ in theirs:
+            pf.add_extra_dimension(p_)
+        foreign = laspy.PackedPointRecord.zeros(3, pf)
+        foreign.array[:] = np.frombuffer(fio.raw_records(ck.rng, pf.size, 3), dtype=pf.dtype())
+        inp = {"what": "foreign-records", "kind": kind, "minor": minor, "fmt": fmt, "variant": variant, "record_size": size, "foreign_record_size": pf.size,
+               "accepted_before": [len(g) // size for g in good]}
+        ck.case(("foreign_records", kind, minor, fmt, variant, las.points.array.tobytes()), nontrivial=True)
+        ck.count("foreign_records:" + variant)
+        intended = (las.points.array.tobytes() if kind == "append" else b"") + b"".join(good)
+        outcome = "accepted"
+        try:
+            if kind == "append":
+                b0 = io.BytesIO()
+                las.write(b0)
+                dest = io.BytesIO(b0.getvalue())
+                with laspy.open(dest, mode="a", closefd=False) as ap:
+                    for g in good:
+                        ap.append_points(c06.rec_of(las, g))
+                    ap.append_points(foreign)
+            else:
+                dest = io.BytesIO()
+                with laspy.open(dest, mode="w", header=las.header, closefd=False) as w:
+                    for g in good:
+                        w.write_points(c06.rec_of(las, g))
+                    w.write_points(foreign)
+        except Exception as e:
+            outcome = type(e).__name__
+        ck.count("foreign_records_outcome:" + outcome)
+        check_image(ck, dest.getvalue(), intended, size, dict(inp, session_outcome=outcome),
+                    f"{kind} session handed records of another point format ({variant}; {pf.size}-byte records into a {size}-byte file; outcome {outcome})", lines, meta)
 
 
 def finish(ck, lines, meta):
